@@ -93,7 +93,8 @@ def check_tables(chk, prog):
             bad += 1
             chk.add(Finding('C11.tables', UNIT, 'base64de', 'inverse[%s]' % ch, 'base64de[%r] = %s, must be %d (inverse of the encode table)'
                             % (ch, de[c] if c < len(de) else 'out of table', i)))
-    for c, v in enumerate(de):
+    for c, v in enumerate(de[:128]):
+        # entries beyond the ASCII range (a table declared larger) are judged by what the decoder does with such bytes (byte decisions)
         if chr(c) not in RFC4648:
             n += 1
             if v != 255:
